@@ -82,6 +82,14 @@ def run(ctx):
             # the positions and widths of the CCSDS header fields are reads like any other: the bits of the buffer, whatever a header
             # accessor would say about this buffer (its length field rarely matches its length)
             p, n = [(0, 3), (3, 1), (4, 1), (5, 11), (16, 2), (18, 14), (32, 16), (0, 16), (16, 16), (0, 48)][(i // 10) % 10]
+        if i % 10 == 5:
+            # byte-aligned reads of the standard machine widths with the top bit set (and clear): no width is special
+            n = (8, 16, 32, 64, 128, 24, 40, 56, 72)[(i // 10) % 9]
+            p = (0, 8, 64)[(i // 90) % 3]
+            L = max(L, (p + n) // 8 + 1)
+            buf = bytearray(rng.getrandbits(8) for _ in range(L))
+            buf[p // 8] = (0xFF, 0x80, 0x7F, 0x00)[(i // 270) % 4]
+            buf = bytes(buf)
         op = rng.choice(["int", "bytes"])
         try:
             v, pos, after = do_read(packets, buf, p, n, op)
